@@ -159,3 +159,11 @@ Example schedule_example :
   sem_outcomes 2 sem0 [Start 1; Start 2; Start 3; End 1 false; Start 4; End 2 true; End 4 false] = [1; 1; 2; 0; 1; 0; 0] /\
   m_peak m = 2 /\ m_503 m = 1 /\ m_gathers m = 3 /\ m_dones m = 3 /\ running m = 0.
 Proof. exact C11_proofs.ex_schedule. Qed.
+
+(* Timeout x MaxRequestsInFlight: a request answered by the timeout 503 still holds its slot while its gather runs,
+   so the next request is refused with the limit 503 (inflight_bounded covers every schedule with TimedOut events) *)
+Example schedule_with_timeout_example :
+  sem_outcomes 1 sem0 [Start 1; TimedOut 1; Start 2; End 1 false; Start 3; TimedOut 2; End 3 true] = [1; 3; 2; 0; 1; 0; 0] /\
+  m_peak (sem_run 1 [Start 1; TimedOut 1; Start 2; End 1 false; Start 3; TimedOut 2; End 3 true]) = 1 /\
+  m_503 (sem_run 1 [Start 1; TimedOut 1; Start 2; End 1 false; Start 3; TimedOut 2; End 3 true]) = 1.
+Proof. exact C11_proofs.ex_schedule_timeout. Qed.
